@@ -14,6 +14,7 @@ EXPLANATION = (
     'and head_is_left=True; R3.6 registry complete, dispatch a filter-free fold, no refusal after a successful '
     'match other than R3.3).  Takes "unification succeeded" to mean the inputs have the patterns\' shape (C06).'
     ' The dispatch fold also checks what the combinators are applied to (inputs with only nb erased).'
+    ' Third round: N / NP ruled out on every result path of backward crossed composition; the meaning of _is_punct (truth table and the lettered names it accepts, read through module constants and imports); Functor.__xor__ as used by scan for twice-bound variables.'
 )
 TRUSTED = ['CPython ast', 'schema table in sa/rules_grammar.py (from the property statement)', 'independent pattern parser sa/symcat.py']
 
@@ -29,6 +30,7 @@ def check(repo, rep, tier):
     rep.rule('R3.5', 'label vocabulary and head_is_left=True')
     rep.rule('R3.6', 'registry complete; apply_binary_rules filter-free fold; None only on unification failure / R3.3')
     rg.check_is_modifier(mod, rep, 'R3.2')
+    rg.check_is_punct(mod, rep, 'R3.4')
     labels = set()
     fns = combinator_functions(mod)
     for name, fn in fns:
@@ -45,6 +47,8 @@ def check(repo, rep, tier):
     c06.r_scan_deep(repo, rep, 'R3.1')
     c06.r_feature_loop(repo, rep, 'R3.1')
     c06.r_feature_relations(repo, rep, 'R3.1')
+    from .c13 import r_xor
+    r_xor(repo.module('depccg/cat.py'), rep, 'R3.1')     # scan() compares a twice-bound variable's two values with ^
     rep.floor('registered English combinators', len(reg), 13)
     rep.floor('schema labels produced', len({l for l, _ in labels if l in rg.SCHEMAS['en']}), 6)
     rep.note('labels', sorted(labels))
